@@ -11,5 +11,7 @@ CONSTANTS
   AnyMaxHist = 4
   AnyMaxLen = 2
   AnyMaxSteps = 8
+  AnyFaults = TRUE
+  MaxFaults = 1
 INVARIANTS TypeOK OldOrNew NoEarlyExposure
 CHECK_DEADLOCK FALSE
